@@ -747,7 +747,7 @@ func (vfs *MemFS) removeAll(parent *dirNode) error {
 		return vfs.err.PermDenied
 	}
 
-	for _, child := range parent.children {
+	for name, child := range parent.children {
 		if c, ok := child.(*dirNode); ok {
 			err := vfs.removeAll(c)
 			if err != nil {
@@ -756,6 +756,7 @@ func (vfs *MemFS) removeAll(parent *dirNode) error {
 		}
 
 		child.delete()
+		delete(parent.children, name)
 	}
 
 	return nil
